@@ -16,7 +16,7 @@ pub static DEF: PropDef = PropDef {
     rule: "states = distinct (type, value, history) productions; transitions = ordered pairs (and triples) compared; non-trivial = pairs in which at least one side comes from a dirty-buffer / offset history",
     assumptions: &["hash compared through std's DefaultHasher with its fixed default keys (SipHash-1-3, keys 0)"],
     shards: (16, 64),
-    budget_ms: (20_000, 60_000),
+    budget_ms: (60_000, 180_000),
 };
 
 fn h(v: &Value) -> u64 {
